@@ -135,14 +135,14 @@ type c12CodeCase struct {
 	Ops        []c12CodeOp `json:"ops"`
 }
 
-var c12CodeCreds = []string{"email:alice@example.com", "tel:+17025550001", "email:b:ob@example.com"}
+var c12CodeCreds = []string{"email:alice@example.com", "tel:+17025550001", "email:b:ob@example.com", "email:carol%sales@example.com", "tel:+1%2070255_50002"}
 
 func c12CodeGen(rt *rapid.T) c12CodeCase {
 	var c c12CodeCase
 	c.CodeLength = rapid.IntRange(4, 8).Draw(rt, "code_length")
 	c.ExpireIn = rapid.OneOf(rapid.IntRange(1, 5), rapid.IntRange(30, 3600)).Draw(rt, "expire_in")
 	c.MaxRetries = rapid.IntRange(1, 4).Draw(rt, "max_retries")
-	nu := rapid.IntRange(1, 3).Draw(rt, "n_users")
+	nu := rapid.IntRange(1, 5).Draw(rt, "n_users")
 	for i := 0; i < nu; i++ {
 		c.Users = append(c.Users, rapid.Uint64Range(1, 1<<63).Draw(rt, "uid")+uint64(i))
 	}
